@@ -1113,8 +1113,9 @@ def tree_case(cid, files, ops, constraints):
     return "\t".join([cid, "tree", hx(fsx(files)), hx(opx(ops)), "Q:" + ";".join(constraints)])
 
 
-TREE_DATA = "((%s (str %s)) (%s (int 3)) (%s (slice (int 1) (int 2))) (%s (bool 1)) (%s (map (%s (str %s)))))" % (
-    hx("name"), hx("Ann"), hx("n"), hx("items"), hx("flag"), hx("user"), hx("Name"), hx("Bo"))
+TREE_DATA = "((%s (str %s)) (%s (int 3)) (%s (slice (int 1) (int 2))) (%s (bool 1)) (%s (map (%s (str %s)))) (%s (str %s)) (%s (str %s)) (%s (bool 0)))" % (
+    hx("name"), hx("Ann"), hx("n"), hx("items"), hx("flag"), hx("user"), hx("Name"), hx("Bo"), hx("kind"), hx("OUTERKIND"),
+    hx("label"), hx("OUTERLABEL"), hx("big"))
 
 
 # ----------------------------------------------------------------------------- C06
@@ -1183,9 +1184,20 @@ class C06(Prop):
             ops = [op_new(d, e), op_string("page", TREE_DATA), op_evalstr(inlined, TREE_DATA), op_string("layouts/main", TREE_DATA)]
             lines.append(tree_case("C06:%d" % i, files, ops, ["ok:0", "eq:1:2", "err:3", "nopanic"]))
         # the four error cases
-        for i in range({"quick": 40, "thorough": 300, "search": 80}[tier]):
+        for i in range({"quick": 60, "thorough": 300, "search": 80}[tier]):
             lay = "<t>@reserve('title')</t>@reserve('body')"
-            k = i % 4
+            k = i % 6
+            if k >= 4:
+                # inserts that are not a subset of the reserves, including a layout with no reserve at all
+                rnames = rng.sample(["title", "body", "foot"], rng.choice([0, 0, 1, 2]))
+                lay2 = "<l>" + "".join("@reserve('%s')" % r for r in rnames) + "static {{ name }}</l>"
+                inames = rng.sample(["title", "body", "foot", "side"], rng.choice([1, 2]))
+                page = "@use('~main')\nignored\n" + "".join("@insert('%s', 'v')" % n2 if rng.random() < 0.5 else "@insert('%s')b@end" % n2 for n2 in inames)
+                files = [("tpl/page.tw", "file", page), ("tpl/layouts/main.tw", "file", lay2)]
+                extra = [n2 for n2 in inames if n2 not in rnames]
+                cons = (["err:0", "msgsub:0:" + hx(sorted(extra)[0]), "nopanic"] if extra else ["ok:0", "ok:1", "nopanic"])
+                lines.append(tree_case("C06:e%d" % i, files, [op_new("tpl", ".tw"), op_string("page", TREE_DATA)], cons))
+                continue
             if k == 0:
                 page = "@use('~main')@insert('title', 'a')@insert('nosuch')x@end"
                 files = [("tpl/page.tw", "file", page), ("tpl/layouts/main.tw", "file", lay)]
@@ -1239,8 +1251,9 @@ class C07(Prop):
         ])
 
     def use(self, rng, csrc, idx):
-        args = {"kind": rng.choice(["'k%d'" % idx, "name", "'q'"]), "label": rng.choice(["'L%d'" % idx, "name", "user.name"]),
-                "big": rng.choice(["true", "false", "n > %d" % idx])}
+        args = {"kind": rng.choice(["'k%d'" % idx, "name", "'q'", "label", "label + kind"]),
+                "label": rng.choice(["'L%d'" % idx, "name", "user.name", "kind", "kind + '!'"]),
+                "big": rng.choice(["true", "false", "n > %d" % idx, "big", "!big"])}
         slots = {}
         if "@slot|" in csrc or "@slot]" in csrc or "@slot)" in csrc or csrc.count("@slot") > csrc.count("@slot('"):
             if rng.random() < 0.8:
@@ -1257,7 +1270,9 @@ class C07(Prop):
         for nm in ("head", "foot"):
             inl = inl.replace("@slot('%s')" % nm, slots.get(nm, ""))
         inl = inl.replace("@slot", slots.get("", ""))
-        inl = "@if(true)" + "".join("{{ %s = %s }}" % kv for kv in sorted(args.items())) + inl + "@end"
+        # arguments are evaluated at the place of use: into temporaries first, then bound in the child scope
+        tmp = "".join("{{ t%d_%s = %s }}" % (idx, k, v) for k, v in sorted(args.items()))
+        inl = tmp + "@if(true)" + "".join("{{ %s = t%d_%s }}" % (k, idx, k) for k in sorted(args)) + inl + "@end"
         return use, inl
 
     def generate(self, rng, tier):
@@ -1403,7 +1418,7 @@ class C14(Prop):
                    "implementation. Oracle: repetitions and fresh processes agree.")
     assumptions = ["Go randomises map iteration per loop; the number of repetitions bounds the chance of missing an order-dependent site"]
 
-    KEYS = ["a", "b", "c", "d", "e", "zeta", "Alpha", "k1"]
+    KEYS = ["a", "b", "c", "d", "e", "zeta", "Alpha", "k1", "id", "ID", "Id", "iD", "name", "Name", "NAME", "A", "B", "ab", "aB"]
 
     def obj_lit(self, rng, nk, failing=0):
         ks = rng.sample(self.KEYS, nk)
@@ -1576,7 +1591,8 @@ class C17(Prop):
     MARK = "PARTIAL-OUTPUT-7731"
 
     def page(self, rng, fail_at):
-        stmts = ["<h1>{{ name }}</h1>", "@if(flag)%s@end" % self.MARK, "@each(i in items){{ i }}@end", "<p>%s {{ n }}</p>" % self.MARK, "end"]
+        stmts = ["<h1>{{ name }}</h1>", "@if(flag)%s@end" % self.MARK, "@each(i in items){{ i }}% @end", "<p>%s {{ n }}</p>" % self.MARK,
+                 "<div style='width: 100%'>50%d done %s %v %!</div>", "end"]
         if fail_at is not None:
             fault = rng.choice(["{{ secretvar }}", "{{ 1 + 'secretmsg' }}", "{{ n.secretfn() }}", "{{ user.secretprop }}", "{{ n / secretzero }}"])
             stmts.insert(fail_at, fault)
@@ -1590,7 +1606,7 @@ class C17(Prop):
             for custom in ("none", "valid", "missing", "failing"):
                 for outcome in ("ok", "fail", "missing"):
                     for _ in range(reps):
-                        fail_at = rng.randrange(0, 6) if outcome == "fail" else None
+                        fail_at = rng.randrange(0, 7) if outcome == "fail" else None
                         files = [("tpl/pg.tw", "file", self.page(rng, fail_at))]
                         errpage = ""
                         if custom == "valid":
@@ -1605,7 +1621,7 @@ class C17(Prop):
                         ops = [op_new("tpl", ".tw", errpage, debug), op_response(name, TREE_DATA), op_string(name, TREE_DATA)]
                         cons = ["nopanic", "ok:0"]
                         if outcome == "ok":
-                            cons += ["ok:1", "ok:2", "body:1:" + hx(self.MARK)]
+                            cons += ["ok:1", "ok:2", "body:1:" + hx(self.MARK), "bodyout:1:2"]
                         else:
                             cons += ["err:1", "err:2", "nobody:1:" + hx(self.MARK)]
                             if debug == 0:
